@@ -18,6 +18,9 @@ def run(ck):
     quick = ck.tier == "quick"
     synccheck.run_family(ck, "synchist-seq", 1500 if quick else 20000, CLAUSE, nontrivial,
                          extra_args=["--maxlen", 12 if quick else 30])
+    # histories may also contain syncs that overlap (C02 studies them in depth)
+    synccheck.run_family(ck, "synchist-sched", 400 if quick else 5000, CLAUSE, nontrivial,
+                         extra_args=["--maxlen", 8 if quick else 14], corpus=False)
     if not thm_ok and not ck.violations:
         path = ck.write_replay("theorem", {
             "property": ck.prop, "kind": "a theorem of coq/theories/Properties/C01.v no longer checks",
